@@ -168,7 +168,7 @@ def _check2d(ctx, one, name, got, want, dt, scale):
         # known mechanism: exact integer mean m computed as (m*F)*(1/F) < m with a hoisted reciprocal, then truncated
         tot = one["f1"] * one["f2"]
         diff = got.astype(np.float64) - want
-        sel = diff != 0
+        sel = np.abs(diff) >= 1.0   # the elements that violate |out - mean| < 1
         if np.all(diff[sel] == -1.0) and np.all(want[sel] == np.round(want[sel])) and np.all((want[sel] * tot) * (1.0 / tot) < want[sel]):
             ctx.violation("int-mean-one-below-exact:reciprocal-division-undershoot", f"{name} shape ({one.get('d1')},{one.get('d2')}) factors ({one.get('f1')},{one.get('f2')}): "
                           f"exact integer mean {want[sel][0]} returned as {got[sel][0]} ((m*F)*(1/F) < m for F={tot})", one)
